@@ -247,6 +247,12 @@ def run_trace(cfg, trace, kinds, init_env=None, observe=None, timeout=10.0):
                 return upd_ok, 'bogus'
             if kind == 'update-empty-non-mapping':
                 return [], TaskStatus.DONE
+            if kind == 'non-final-status':
+                return upd_ok, TaskStatus.WAITING
+            if kind == 'own-entry-not-a-mapping':
+                return {self.name: 5}, TaskStatus.DONE
+            if kind == 'system-exit':
+                raise SystemExit(3)
             return 42, TaskStatus.DONE
 
     warm = [False]
